@@ -3,18 +3,15 @@
 default limits of the deserializer (de/mod.rs, de/read/mod.rs), the container magic and metadata
 limits and key names (object_container_file_encoding/*), codec names (kebab-case of the
 CompressionCodec variants), the single-object marker (single_object_encoding.rs)."""
-import re, sys
+import os, re, sys
+sys.path.insert(0, os.path.dirname(os.path.abspath(__file__)))
+import rustmatch as R
+import rustast as A
+import rustnorm as N
+from rustmatch import ShapeError
 
 class TranslateError(Exception):
     pass
-
-def num(expr):
-    """evaluates a Rust integer constant expression made of literals, * and parentheses"""
-    e = re.sub(r"(?<=\d)_(?=\d)", "", expr.strip())
-    e = re.sub(r"(\d)(?:usize|u32|u64|u8|i64)\b", r"\1", e)
-    if not re.fullmatch(r"[0-9x\sA-Fa-f*()+]+", e):
-        raise TranslateError("not a constant expression: %r" % expr)
-    return int(eval(e, {"__builtins__": {}}))
 
 def find(pat, src, what, flags=0):
     m = re.search(pat, src, flags)
@@ -33,21 +30,108 @@ def kebab(name):
 def blist(bs):
     return "[" + "; ".join(str(b) for b in bs) + "]"
 
+class File:
+    """one source file: the normalised bodies of its functions (constants resolved through the crate, lets bound
+    to constants substituted), and its raw tokens"""
+    def __init__(self, path, env):
+        self.path = os.path.abspath(path)
+        self.env = env
+        self.text = open(path).read()
+        self.toks = R.tokenize(self.text)
+        self.items = env.items(self.path)
+        self.bodies = []
+        self.unparsed = []
+        for f in self.items.fns:
+            if f.body is None:
+                continue
+            try:
+                owner = f.owner[1] if f.owner and f.owner[0] != "trait" else None
+                self.bodies.append((f, N.normalize_body(A.parse_block_tokens(f.body), env, self.path, owner)))
+            except ShapeError as e:
+                self.unparsed.append((f.name, str(e)))
+
+    def nodes(self, pred):
+        out = []
+        def go(x):
+            if pred(x):
+                out.append(x)
+            N.map_expr(x, go)
+            return x
+        for f, b in self.bodies:
+            go(b)
+        return out
+
+    def const_of(self, e):
+        return self.env.eval(e, self.path)
+
+    def field_constant(self, field, what, owner=None):
+        """the constant that the struct field `field` is initialised with (`T { field: <const>, .. }`) or assigned
+        (`x.field = <const>;`): every occurrence whose value is a constant must agree"""
+        vals = []
+        def pred(x):
+            if x[0] == "struct":
+                if owner is not None and A.text(x[1]).split(" ")[-1] != owner:
+                    return False
+                for n, v in x[2]:
+                    if n == field:
+                        c = self.const_of(v)
+                        if c is not None:
+                            vals.append(c)
+            if x[0] == "assign" and x[1] == "=" and x[2][0] == "field" and x[2][2] == field and owner is None:
+                c = self.const_of(x[3])
+                if c is not None:
+                    vals.append(c)
+            return False
+        self.nodes(pred)
+        if not vals:
+            hint = ("; functions not understood: " + ", ".join(n for n, _ in self.unparsed)) if self.unparsed else ""
+            raise TranslateError(what + " not found" + hint)
+        if any(v != vals[0] for v in vals):
+            raise TranslateError(what + ": several different constants %r" % (sorted(set(map(str, vals))),))
+        if not isinstance(vals[0], int):
+            raise TranslateError(what + " is not an integer")
+        return vals[0]
+
+    def array_type_len(self, field, what):
+        """N of the declaration `field: [u8; N]` (a struct field), constants resolved"""
+        t = self.toks
+        vals = []
+        for i in range(len(t) - 6):
+            if t[i] == field and t[i + 1] == ":" and t[i + 2] == "[" and t[i + 3] == "u8" and t[i + 4] == ";":
+                e = R.match_close(t, i + 2)
+                try:
+                    v = self.env.eval_tokens(t[i + 5:e], self.path)
+                except ShapeError:
+                    v = None
+                if not isinstance(v, int):
+                    raise TranslateError(what + ": length is not a constant")
+                vals.append(v)
+        if not vals:
+            raise TranslateError(what + " not found")
+        if any(v != vals[0] for v in vals):
+            raise TranslateError(what + ": several different lengths")
+        return vals[0]
+
 def main(repo, out):
     base = repo + "/serde_avro_fast/src/"
-    de = open(base + "de/mod.rs").read()
-    m = find(r"impl<'s>\s*DeserializerConfig<'s>.*?max_seq_size\s*:\s*([0-9_ *()]+),\s*allowed_depth\s*:\s*([0-9_ *()]+),", de, "DeserializerConfig defaults", re.S)
-    max_seq, depth = num(m.group(1)), num(m.group(2))
-    rd = open(base + "de/read/mod.rs").read()
-    max_alloc = num(find(r"max_alloc_size\s*:\s*([0-9_ *()]+),", rd, "max_alloc_size default").group(1))
-    oc = open(base + "object_container_file_encoding/mod.rs").read()
-    m = find(r"const\s+HEADER_CONST\s*:\s*\[u8;\s*4\]\s*=\s*\[(.*?)\]\s*;", oc, "HEADER_CONST")
-    magic = []
-    for tok in [t.strip() for t in m.group(1).split(",") if t.strip()]:
-        mm = re.fullmatch(r"b'(.)'", tok)
-        magic.append(ord(mm.group(1)) if mm else num(tok))
-    if len(magic) != 4:
-        raise TranslateError("HEADER_CONST does not have 4 bytes")
+    env = N.ConstEnv(base)
+    try:
+        return main_(repo, out, base, env)
+    except ShapeError as e:
+        raise TranslateError(str(e))
+
+def main_(repo, out, base, env):
+    de = File(base + "de/mod.rs", env)
+    max_seq = de.field_constant("max_seq_size", "DeserializerConfig default max_seq_size", "DeserializerConfig")
+    depth = de.field_constant("allowed_depth", "DeserializerConfig default allowed_depth", "DeserializerConfig")
+    rd = File(base + "de/read/mod.rs", env)
+    max_alloc = rd.field_constant("max_alloc_size", "max_alloc_size default", "ReaderRead")
+    ocf = File(base + "object_container_file_encoding/mod.rs", env)
+    oc = ocf.text
+    magic_v = env.lookup("HEADER_CONST", ocf.path)
+    if not (isinstance(magic_v, tuple) and len(magic_v[1]) == 4):
+        raise TranslateError("HEADER_CONST not found (or not 4 constant bytes)")
+    magic = list(magic_v[1])
     m = find(r"#\[serde\(rename_all\s*=\s*\"([a-z-]+)\"\)\]\s*(?:#\[[^\]]*\]\s*)*(?:pub(?:\([a-z]+\))?\s+)?enum\s+CompressionCodec\s*\{(.*?)\n\}", oc, "enum CompressionCodec", re.S)
     if m.group(1) != "kebab-case":
         raise TranslateError("CompressionCodec is not renamed kebab-case")
@@ -59,15 +143,33 @@ def main(repo, out):
     if keys[:2] != ["avro.schema", "avro.codec"]:
         raise TranslateError("metadata key names not recognised: %r" % keys)
     codec_default_null = bool(re.search(r"rename\s*=\s*\"avro\.codec\"\s*,\s*default\s*=\s*\"CompressionCodec::null\"", oc))
-    rdr = open(base + "object_container_file_encoding/reader/mod.rs").read()
-    meta_max_seq = num(find(r"metadata_deserializer_config\.max_seq_size\s*=\s*([0-9_]+)\s*;", rdr, "metadata max_seq_size").group(1))
-    wr = open(base + "object_container_file_encoding/writer/mod.rs").read()
-    approx = num(find(r"approx_block_size\s*:\s*([0-9_ *()]+),", wr, "default approx_block_size").group(1))
-    so = open(base + "single_object_encoding.rs").read()
-    m = find(r"write_all\(&\[\s*(0x[0-9A-Fa-f]+)\s*,\s*(0x[0-9A-Fa-f]+)\s*\]\)", so, "single-object marker (write)")
-    marker_w = [int(m.group(1), 16), int(m.group(2), 16)]
-    m = find(r"!=\s*\[\s*(0x[0-9A-Fa-f]+)\s*,\s*(0x[0-9A-Fa-f]+)\s*\]", so, "single-object marker (check)")
-    marker_r = [int(m.group(1), 16), int(m.group(2), 16)]
+    rdr = File(base + "object_container_file_encoding/reader/mod.rs", env)
+    meta_max_seq = rdr.field_constant("max_seq_size", "metadata max_seq_size")
+    wr = File(base + "object_container_file_encoding/writer/mod.rs", env)
+    approx = wr.field_constant("approx_block_size", "default approx_block_size")
+    # the magic as the reader compares it and as the writer writes it (when these can be located) is HEADER_CONST
+    def four(c):
+        return isinstance(c, tuple) and len(c[1]) == 4
+    r_magic = [c for c in (rdr.const_of(x[k]) for x in rdr.nodes(lambda x: x[0] == "binary" and x[1] in ("==", "!=")) for k in (2, 3)) if four(c)]
+    w_magic = [c for c in (wr.const_of(x[4][0]) for x in wr.nodes(lambda x: x[0] == "mcall" and x[2] == "write_all" and len(x[4]) == 1)) if four(c)]
+    for c in r_magic + w_magic:
+        if list(c[1]) != magic:
+            raise TranslateError("the container magic used by the reader / writer is not HEADER_CONST")
+    sync_r = rdr.array_type_len("sync_marker", "reader sync_marker length")
+    sync_w = wr.array_type_len("sync_marker", "writer sync_marker length")
+    if sync_r != sync_w:
+        raise TranslateError("sync marker length differs between reader (%d) and writer (%d)" % (sync_r, sync_w))
+    so = File(base + "single_object_encoding.rs", env)
+    def two(c):
+        return isinstance(c, tuple) and len(c[1]) == 2
+    ws = [c for c in (so.const_of(x[4][0]) for x in so.nodes(lambda x: x[0] == "mcall" and x[2] == "write_all" and len(x[4]) == 1)) if two(c)]
+    if not ws or any(c != ws[0] for c in ws):
+        raise TranslateError("single-object marker (write) not found")
+    marker_w = list(ws[0][1])
+    cs = [c for c in (so.const_of(x[k]) for x in so.nodes(lambda x: x[0] == "binary" and x[1] in ("==", "!=")) for k in (2, 3)) if two(c)]
+    if not cs or any(c != cs[0] for c in cs):
+        raise TranslateError("single-object marker (check) not found")
+    marker_r = list(cs[0][1])
     text = "(* GENERATED by translators/gen_consts.py from the crate's source -- do not edit *)\n"
     text += "From Coq Require Import NArith List.\nImport ListNotations.\nOpen Scope N_scope.\n\n"
     text += "Definition GEN_MAX_SEQ_SIZE : N := %d.\nDefinition GEN_ALLOWED_DEPTH : nat := %d%%nat.\nDefinition GEN_MAX_ALLOC_SIZE : N := %d.\n" % (max_seq, depth, max_alloc)
@@ -76,6 +178,7 @@ def main(repo, out):
     text += "Definition GEN_CODEC_NAMES : list (list N) :=\n  [%s].\n" % ";\n   ".join(blist(kebab(v).encode()) for v in variants)
     text += "Definition GEN_META_KEYS : list (list N) := [%s].\n" % "; ".join(blist(k.encode()) for k in keys[:2])
     text += "Definition GEN_CODEC_DEFAULT_NULL : bool := %s.\n" % ("true" if codec_default_null else "false")
+    text += "Definition GEN_SYNC_MARKER_LEN : N := %d.\n" % sync_r
     try:
         old = open(out).read()
     except OSError:
